@@ -151,10 +151,19 @@ func genBucket(r *vh.Rand, maxOps int) *BucketCase {
 	return c
 }
 
+// coqItems renders the CONTENT of the bucket (value, priority), sorted by priority then value: the array layout
+// and the index fields are not part of the compared observation (they are judged by the direct oracle below).
 func coqItems(items []limit.VerifItem[uint64]) string {
-	parts := make([]string, len(items))
-	for i, it := range items {
-		parts[i] = fmt.Sprintf("(%s, %s, %s)", vh.U64(it.Value), vh.Z(it.Priority.UnixNano()), vh.Nat(it.Index))
+	xs := append([]limit.VerifItem[uint64](nil), items...)
+	sort.Slice(xs, func(i, j int) bool {
+		if !xs[i].Priority.Equal(xs[j].Priority) {
+			return xs[i].Priority.Before(xs[j].Priority)
+		}
+		return xs[i].Value < xs[j].Value
+	})
+	parts := make([]string, len(xs))
+	for i, it := range xs {
+		parts[i] = fmt.Sprintf("(%s, %s)", vh.U64(it.Value), vh.Z(it.Priority.UnixNano()))
 	}
 	return vh.List(parts)
 }
@@ -213,6 +222,15 @@ func runBucket(t *testing.T, c *Case) *result {
 				case anyExpired:
 					// exactly one item left: it was expired and had a minimal priority
 					res.tags["upsert-evict"]++
+					nmin := 0
+					for _, it := range before {
+						if it.Priority.Equal(minP) {
+							nmin++
+						}
+					}
+					if nmin > 1 {
+						res.tags["upsert-evict-min-tie"]++
+					}
 					var gone []uint64
 					for k := range bm {
 						if _, still := am[k]; !still {
@@ -1057,7 +1075,7 @@ func TestCheck(t *testing.T) {
 			}
 		}
 	}
-	if err := run.Finish("four engines: (bucket) Upsert/IsStale sequences on limit.Bucket with heap array observed; (store) Put/heartbeat/expiry/GC-tick histories on provider/mem.Alerts with per-name limit 0..4 under synctest; (sil) create/edit/expire/GC bursts on silence.Silences around MaxSilences/MaxSilenceSizeBytes; (sem) GET/POST arrival/completion sequences through api limitHandler. non-trivial = bucket: an eviction, a refusal or a last-slot-not-latest IsStale; store: a limited Put and a GC tick; sil: a count or size refusal; sem: a 503 and a completion. distinct by full history text"); err != nil {
+	if err := run.Finish("four engines: (bucket) Upsert/IsStale sequences on limit.Bucket compared through the value->priority map (layout-free), heap order and index coherence of the real array by direct oracle; (store) Put/heartbeat/expiry/GC-tick histories on provider/mem.Alerts with per-name limit 0..4 under synctest; (sil) create/edit/expire/GC bursts on silence.Silences around MaxSilences/MaxSilenceSizeBytes; (sem) GET/POST arrival/completion sequences through api limitHandler. non-trivial = bucket: an eviction, a refusal or a last-slot-not-latest IsStale; store: a limited Put and a GC tick; sil: a count or size refusal; sem: a 503 and a completion. distinct by full history text"); err != nil {
 		t.Fatal(err)
 	}
 }
